@@ -158,6 +158,55 @@ def _worker(args):
     return r
 
 
+def generic_shrink(pid, mod, case, fail, budget_s=90, max_runs=80):
+    """Smaller replay: drop the decoy, drop operations, remove variables of the network (replaced by a
+    constant), as long as a failure of the same kind persists.  Bounded; the original case is kept on any doubt."""
+    if not isinstance(case, dict):
+        return case
+    common.load_biobalm()
+    t_end = time.time() + budget_s
+    runs = [0]
+
+    def still(c):
+        if time.time() > t_end or runs[0] >= max_runs:
+            return False
+        runs[0] += 1
+        try:
+            r = _worker((pid, c, 30))
+        except Exception:
+            return False
+        return any(f.get("kind") == fail.get("kind") for f in r.get("fails", []))
+
+    cur = case
+    if cur.get("_decoy") is not None:
+        c2 = {k: v for k, v in cur.items() if k != "_decoy"}
+        if still(c2):
+            cur = c2
+    if isinstance(cur.get("ops"), list) and len(cur["ops"]) > 1:
+        ops = list(cur["ops"])
+        i = 0
+        while i < len(ops) and len(ops) > 1:
+            cand = dict(cur, ops=ops[:i] + ops[i + 1:])
+            if still(cand):
+                ops = cand["ops"]
+                cur = cand
+            else:
+                i += 1
+    if isinstance(cur.get("bnet"), str) and "order" not in cur:
+        rows = [l.split(",", 1) for l in cur["bnet"].split("\n") if "," in l]
+        names = [a.strip() for a, _ in rows]
+        for v in reversed(names):
+            if len(rows) <= 2:
+                break
+            for const in ("false", "true"):
+                new = [(a, re.sub(r"\b" + re.escape(v) + r"\b", const, b)) for a, b in rows if a.strip() != v]
+                cand = dict(cur, bnet="\n".join(f"{a.strip()}, {b.strip()}" for a, b in new))
+                if still(cand):
+                    cur, rows = cand, new
+                    break
+    return cur
+
+
 def matches_finding(pid, fail, findings):
     for f in findings:
         if f.get("property") != pid or f.get("status") != "finding":
@@ -332,6 +381,10 @@ def main():
                 c = mod.shrink(c, f)
             except Exception:
                 pass
+        try:
+            c = generic_shrink(pid, mod, c, f)
+        except Exception:
+            pass
         path = os.path.join(OUT, "evidence", "replay", f"{pid}-{common.case_hash(c)}.json")
         common.write_json(path, {"property": pid, "case": c, "failure": f, "seed": seed, "tier": tier,
                                  "other_failures": len(fails) - 1})
